@@ -242,23 +242,44 @@ func storeSlashingProtection(ctx context.Context, protection *SlashingProtection
 			}
 		}
 
-		existingKeyProtection, exists := existingProtection[key]
-		if exists {
-			// We already have an entry; only add this if it contains newer data.
-			if existingKeyProtection.HighestAttestedSourceEpoch <= keyProtection.HighestAttestedSourceEpoch &&
-				existingKeyProtection.HighestAttestedTargetEpoch <= keyProtection.HighestAttestedTargetEpoch &&
-				existingKeyProtection.HighestProposedSlot <= keyProtection.HighestProposedSlot {
-				protectionMap[key] = keyProtection
-			} else {
-				fmt.Fprintf(os.Stdout, "Existing entry for public key %#x contains newer data; not importing\n", key)
-			}
-		} else {
-			protectionMap[key] = keyProtection
+		// A key can be present in multiple entries of the file, and can already be present in the database;
+		// retain the highest value of each field so that an import never weakens protection.
+		if earlierKeyProtection, exists := protectionMap[key]; exists {
+			keyProtection = highestSlashingProtection(earlierKeyProtection, keyProtection)
 		}
+		if existingKeyProtection, exists := existingProtection[key]; exists {
+			if existingKeyProtection.HighestAttestedSourceEpoch > keyProtection.HighestAttestedSourceEpoch ||
+				existingKeyProtection.HighestAttestedTargetEpoch > keyProtection.HighestAttestedTargetEpoch ||
+				existingKeyProtection.HighestProposedSlot > keyProtection.HighestProposedSlot {
+				fmt.Fprintf(os.Stdout, "Existing entry for public key %#x contains newer data; not importing older values\n", key)
+			}
+			keyProtection = highestSlashingProtection(existingKeyProtection, keyProtection)
+		}
+		protectionMap[key] = keyProtection
 	}
 	if err := rulesSvc.ImportSlashingProtection(ctx, protectionMap); err != nil {
 		return errors.Wrap(err, "failed to obtain slashing protection")
 	}
 
 	return nil
+}
+
+// highestSlashingProtection returns the field-by-field highest values of two slashing protection entries.
+func highestSlashingProtection(a *rules.SlashingProtection, b *rules.SlashingProtection) *rules.SlashingProtection {
+	res := &rules.SlashingProtection{
+		HighestAttestedSourceEpoch: a.HighestAttestedSourceEpoch,
+		HighestAttestedTargetEpoch: a.HighestAttestedTargetEpoch,
+		HighestProposedSlot:        a.HighestProposedSlot,
+	}
+	if b.HighestAttestedSourceEpoch > res.HighestAttestedSourceEpoch {
+		res.HighestAttestedSourceEpoch = b.HighestAttestedSourceEpoch
+	}
+	if b.HighestAttestedTargetEpoch > res.HighestAttestedTargetEpoch {
+		res.HighestAttestedTargetEpoch = b.HighestAttestedTargetEpoch
+	}
+	if b.HighestProposedSlot > res.HighestProposedSlot {
+		res.HighestProposedSlot = b.HighestProposedSlot
+	}
+
+	return res
 }
